@@ -82,7 +82,7 @@ func (x *Exec) libCall2(s *State, site ssa.Instruction, fn *ssa.Function, name s
 		x.used(name)
 		k(s, x.freshResult(s, site, res))
 		return true
-	case "(*golang.org/x/crypto/ssh.ServerConfig).AddHostKey", "golang.org/x/crypto/ssh.ParsePrivateKey", "golang.org/x/crypto/ssh.DiscardRequests":
+	case "(*golang.org/x/crypto/ssh.ServerConfig).AddHostKey", "golang.org/x/crypto/ssh.ParsePrivateKey", "golang.org/x/crypto/ssh.DiscardRequests", "golang.org/x/crypto/ssh.NewServerConn", "golang.org/x/crypto/ssh.Unmarshal":
 		x.used(name + " (no effect on verified state)")
 		k(s, x.freshResult(s, site, res))
 		return true
